@@ -254,13 +254,22 @@ func (f *Flat) errorConsumed(fi *FuncInfo, A int, E types.Object, o flowOpts) fl
 			if why != "" {
 				return flowResult{false, why, f.P.pos(n.Ast)}
 			}
-			// overwritten?
-			if id != A {
-				for _, ob := range assignedObjs(info, n.Ast) {
-					if ob == E {
-						return flowResult{false, "the error is overwritten before it is handled", f.P.pos(n.Ast)}
+			// overwritten? (reaching the source node again with the error pending is an overwrite too, unless
+			// it re-assigns the same constant sentinel)
+			for _, ob := range assignedObjs(info, n.Ast) {
+				if ob != E {
+					continue
+				}
+				if id == A {
+					if as, ok := n.Ast.(*ast.AssignStmt); ok && len(as.Rhs) == 1 {
+						if k := exprObjKey(info, as.Rhs[0]); k != "" && !strings.HasPrefix(k, "&") {
+							if _, isCall := ast.Unparen(as.Rhs[0]).(*ast.CallExpr); !isCall {
+								continue
+							}
+						}
 					}
 				}
+				return flowResult{false, "the error is overwritten before it is handled", f.P.pos(n.Ast)}
 			}
 			if n.Exit && !f.isNoReturnExit(n) {
 				return flowResult{false, fmt.Sprintf("the function returns while the error may be non-nil (%s) without returning it", strings.Join(st.at(id), ",")), f.P.pos(n.Ast)}
